@@ -6,6 +6,13 @@ package light
 
 //@ import types github.com/tendermint/tendermint/types
 
+// reach(h): the header with hash h is the trust root or was reached from it by successful verification steps.
+// It is the least predicate closed under the `grants` clauses in this file (successful Verify/VerifyAdjacent calls and the
+// stored blocks); what a successful step guarantees is the proved postcondition of those functions.
+//@ spec func reach(h []byte) bool
+// back(h): the header with hash h is linked to a trusted header by a chain of LastBlockID hashes.
+//@ spec func back(h []byte) bool
+
 //@ func HeaderExpired
 //@   assigns nothing
 //@   ensures def: result <==> h.Header.Time + trustingPeriod <= now
@@ -39,6 +46,7 @@ package light
 //@   ensures newhdr: result == nil ==> newOK(untrustedHeader, untrustedVals, trustedHeader, now, maxClockDrift)
 //@   ensures chained: result == nil ==> untrustedHeader.Header.ValidatorsHash == trustedHeader.Header.NextValidatorsHash
 //@   ensures signed: result == nil ==> signedByOwn(untrustedHeader, untrustedVals, trustedHeader.Header.ChainID)
+//@   grants closure: (result == nil && reach(types.Header.Hash(trustedHeader.Header))) ==> reach(types.Header.Hash(untrustedHeader.Header))
 
 // One skipping step: not expired, new header checks, at least the trust level of the TRUSTED set signed the new commit
 // (distinct signers), and +2/3 of the new header's own set signed it.
@@ -62,3 +70,91 @@ package light
 //@   ensures chain: result == nil ==> untrustedHeader.ChainID == trustedHeader.ChainID
 //@   ensures time: result == nil ==> untrustedHeader.Time < trustedHeader.Time
 //@   ensures link: result == nil ==> types.Header.Hash(untrustedHeader) == trustedHeader.LastBlockID.Hash
+//@   grants closure: (result == nil && (reach(types.Header.Hash(trustedHeader)) || back(types.Header.Hash(trustedHeader)))) ==> back(types.Header.Hash(untrustedHeader))
+
+// ---------------------------------------------------------------------------------------------------------------
+// Client: every header handed to the trusted store is reached by successful verification steps (C09)
+
+//@ import provider github.com/tendermint/tendermint/light/provider
+//@ import store github.com/tendermint/tendermint/light/store
+//@ import log github.com/tendermint/tendermint/libs/log
+
+//@ extern provider.Provider.LightBlock
+//@   assigns nothing
+// reports counts the evidence reports handed to providers.
+//@ ghost var reports int
+//@ extern provider.Provider.ReportEvidence
+//@   assigns reports
+//@   sets reports = old(reports) + 1 when true
+//@ extern log.Logger.Debug
+//@   assigns nothing
+//@ extern log.Logger.Info
+//@   assigns nothing
+//@ extern log.Logger.Error
+//@   assigns nothing
+//@ extern store.Store.SaveLightBlock
+//@   assigns nothing
+//@ extern store.Store.Prune
+//@   assigns nothing
+//@ extern store.Store.LightBlock
+//@   assigns nothing
+//@ extern store.Store.LightBlockBefore
+//@   assigns nothing
+//@ extern store.Store.FirstLightBlockHeight
+//@   assigns nothing
+//@ extern store.Store.LastLightBlockHeight
+//@   assigns nothing
+
+
+
+// Verify dispatches on adjacency; a nil result means one of the two rules held in full.
+//@ func Verify
+//@   requires wf: untrustedHeader != nil && trustedHeader != nil && trustedHeader.Header != nil && untrustedVals != nil && trustedVals != nil && wfPowers(untrustedVals) && wfCached(untrustedVals) && wfPowers(trustedVals) && wfCached(trustedVals)
+//@   requires sz: untrustedHeader.Commit != nil ==> len(untrustedHeader.Commit.Signatures) <= 2147483647
+//@   assigns untrustedVals.totalVotingPower, trustedVals.totalVotingPower
+//@   ensures period: result == nil ==> trustedHeader.Header.Time + trustingPeriod > now
+//@   ensures newhdr: result == nil ==> newOK(untrustedHeader, untrustedVals, trustedHeader, now, maxClockDrift)
+//@   ensures signed: result == nil ==> signedByOwn(untrustedHeader, untrustedVals, trustedHeader.Header.ChainID)
+//@   ensures rule: result == nil ==> ((untrustedHeader.Header.Height == trustedHeader.Header.Height + 1 && untrustedHeader.Header.ValidatorsHash == trustedHeader.Header.NextValidatorsHash) ||
+//@     | (untrustedHeader.Header.Height != trustedHeader.Header.Height + 1 && exists(k, 0, len(untrustedHeader.Commit.Signatures) + 1,
+//@     |   trustTally(trustedVals, untrustedHeader.Commit, trustedHeader.Header.ChainID, k) * trustLevel.Denominator > totalPower(trustedVals, len(trustedVals.Validators)) * trustLevel.Numerator &&
+//@     |   distinctSigners(trustedVals, untrustedHeader.Commit, k))))
+//@   grants closure: (result == nil && reach(types.Header.Hash(trustedHeader.Header))) ==> reach(types.Header.Hash(untrustedHeader.Header))
+
+// A witness comparison reports exactly one verdict, and the verdict "matched" (nil) only for an identical header.
+//@ func Client.compareNewHeaderWithWitness
+//@   requires errs: provider.ErrNoResponse != nil && provider.ErrLightBlockNotFound != nil && provider.ErrHeightTooHigh != nil
+//@   assigns nothing
+//@   ensures once: sends(errc) == 1
+//@   ensures match: lastsent(errc) == 0 ==> types.Header.Hash(h.Header) == types.Header.Hash(lightBlock.SignedHeader.Header)
+
+//@ func Client.getTargetBlockOrLatest
+//@   assigns nothing
+
+// Examining a conflicting header does not report anything by itself (it only fetches and verifies).
+//@ func Client.examineConflictingHeaderAgainstTrace
+//@   trusted
+//@   assigns all(types.ValidatorSet.totalVotingPower)
+//@ func Client.removeWitnesses
+//@   trusted
+//@   assigns c.witnesses, elems(provider.Provider)
+//@ func newLightClientAttackEvidence
+//@   trusted
+//@   assigns all(types.ValidatorSet.totalVotingPower)
+
+// A conflicting header the witness cannot back is benign (nil, nothing reported); one it can back is an attack:
+// the error is ErrLightClientAttack and evidence went out (to the witness, and to the primary when it can be built).
+//@ func Client.handleConflictingHeaders
+//@   requires errs: ErrLightClientAttack != nil
+//@   assigns all(types.ValidatorSet.totalVotingPower), reports
+//@   ensures benign: result == nil ==> reports == old(reports)
+//@   ensures attack: result != nil ==> (result == ErrLightClientAttack && reports >= old(reports) + 1 && reports <= old(reports) + 2)
+
+// The cross-check confirms only when some witness verdict was "matched", and needs a trace of at least two blocks.
+//@ func Client.detectDivergence
+//@   requires errs: ErrLightClientAttack != nil && ErrNoWitnesses != nil && ErrFailedHeaderCrossReferencing != nil
+//@   assigns all(types.ValidatorSet.totalVotingPower), reports, c.witnesses, elems(provider.Provider), c.providerMutex
+//@   ensures long: result == nil ==> len(primaryTrace) >= 2
+//@   ensures matched: result == nil ==> recvdnil(errc)
+//@   loop 1 invariant started: !headerMatched
+//@   loop 2 invariant m: headerMatched ==> recvdnil(errc)
